@@ -715,3 +715,26 @@ def some_guard_dominates(fn, g, site):
         if others and all(diverges_always(a['body']) for a in others):
             return lexically_precedes_dominating(fn, g, site)
     return False
+
+
+def selects_by_negated(fn, n):
+    """n is a call of a boolean predicate on an item. Returns 'filter' if the items for which it holds are left out by
+    `.filter(|p| !p.pred())`, 'continue' if by `if p.pred() { continue; }` as the first statement of the loop over the items
+    (the two spellings of one selection), else None."""
+    pm = parents(fn)
+    par = pm.get(id(n))
+    if par is not None and par.get('k') == 'Unary' and par.get('op') == 'Not':
+        if any(a.get('k') == 'MCall' and a.get('m') == 'filter' for a in ancestors(fn, n)):
+            return 'filter'
+        return None
+    if par is not None and par.get('k') == 'If' and par.get('c') is n and 'els' not in par and diverges_always(par['then']) and \
+            all(x.get('k') != 'Ret' and x.get('k') != 'Break' for x in walk(par['then'])):
+        up = pm.get(id(par))
+        while up is not None and up.get('k') in ('Semi', 'Expr'):
+            par, up = up, pm.get(id(up))
+        if up is not None and up.get('k') == 'Block':
+            first = (up.get('stmts') or [up.get('e')])[0]
+            lp = pm.get(id(up))
+            if first is par and lp is not None and lp.get('k') == 'For' and lp.get('body') is up:
+                return 'continue'
+    return None
